@@ -287,6 +287,10 @@ func TopHeaders(rng *hx.Rng, token string) []string {
 	if rng.Chance(50) {
 		h = append(h, "X-Unknown-Header:   spaced value  ", "X-Empty:", "x-lower: v")
 	}
+	if rng.Chance(6) {
+		// one header line longer than the line buffers programs use by default (64 KiB), with fields after it
+		h = append(h, "References: "+strings.Repeat("<id-0123456789@example.org> ", 2500)+"<last@example.org>")
+	}
 	if rng.Chance(30) {
 		h = append(h, "X-Long: "+strings.Repeat("word ", 30)+"\r\n "+strings.Repeat("more ", 20))
 	}
